@@ -8,6 +8,13 @@ ALL = ["C%02d" % i for i in range(1, 21)]
 
 # id -> (technique, level text, level note, design ref)
 CLAIMED = {
+    "C01": ("property-based testing (Hypothesis op trees incl. mutation from inside event actions) against an "
+            "in-executor reference model; libFuzzer structure-aware front end in the thorough tier",
+            "Search, not proof: generated histories on the real event queue are compared, after every "
+            "operation and inside every action, with an array model ordered by (time, priority, handle); "
+            "held on everything explored.",
+            "Trusts the reference model in harness/m_event.c, Hypothesis, clang sanitizers; NaN times and "
+            "times below the clock are outside the domain.", "DESIGN.md §3 C01"),
     "C02": ("property-based testing (Hypothesis stateful op histories) against an in-executor reference "
             "model; libFuzzer structure-aware front end in the thorough tier",
             "Search, not proof: generated operation histories on the real hashheaps (all four library "
